@@ -181,6 +181,30 @@ def counter_classes(prog):
     return out
 
 
+def _score_sites(prog):
+    """[(function, expression, store node)]: where the value stored through kalign_msa_compare's score pointer is computed -
+    the right-hand side of the store, or, when that is a call of a private helper, the helper's returned expression"""
+    K = prog.fn("kalign_msa_compare")
+    sp = [p for p in K.params if p["ty"].replace(" ", "") in ("float*", "double*")]
+    if len(sp) != 1:
+        raise AnalysisBroken("R17b slot: score out-parameter not found")
+    stores = [a for a in K.body.find("BinaryOperator") if a.d["op"] == "=" and a.kids[0].strip().k == "UnaryOperator" and
+              a.kids[0].strip().d["op"] == "*" and a.kids[0].strip().kids[0].strip(casts=True).k == "DeclRefExpr" and
+              a.kids[0].strip().kids[0].strip(casts=True).d["did"] == sp[0]["did"]]
+    out = []
+    for st in stores:
+        r = st.kids[1].strip(casts=True)
+        H = prog.fn(prog.resolve(r.callee, K.file), required=False) if r.k == "CallExpr" and r.callee else None
+        if H is not None and H.body is not None and H.static and H.file == K.file:
+            rets = [x for x in H.body.find("ReturnStmt") if x.kids]
+            if len(rets) != 1:
+                raise AnalysisBroken("R17b: the score is computed by %s, which has %d value returns; not decided" % (H.name, len(rets)))
+            out.append((H, rets[0].kids[0], st))
+        else:
+            out.append((K, st.kids[1], st))
+    return out
+
+
 def r17b(ck, prog):
     K = prog.fn("kalign_msa_compare")
     cls = counter_classes(prog)
@@ -196,16 +220,11 @@ def r17b(ck, prog):
         ck.violation("R17b", "R17b/compare_pair/twins", site(prog, prog.fn("compare_pair")),
                      "reference-side counters %s and test-side counters %s are not twins" % (sorted(first), sorted(second)), prog.config)
     # the store through the score parameter
-    sp = [p for p in K.params if p["ty"].replace(" ", "") == "float*"]
-    if len(sp) != 1:
-        raise AnalysisBroken("R17b slot: score out-parameter not found")
-    stores = [a for a in K.body.find("BinaryOperator") if a.d["op"] == "=" and a.kids[0].strip().k == "UnaryOperator" and
-              a.kids[0].strip().d["op"] == "*" and a.kids[0].strip().kids[0].strip().k == "DeclRefExpr" and
-              a.kids[0].strip().kids[0].strip().d["did"] == sp[0]["did"]]
-    if len(stores) != 1:
-        raise AnalysisBroken("R17b slot: %d stores through the score parameter" % len(stores))
-    st = stores[0]
-    rhs = st.kids[1].strip(casts=True)
+    sites_ = _score_sites(prog)
+    if len(sites_) != 1:
+        raise AnalysisBroken("R17b slot: %d stores through the score parameter" % len(sites_))
+    SF, sexpr, st = sites_[0]
+    rhs = sexpr.strip(casts=True)
     where = site(prog, st, "*score")
     # shape: K * a / b
     num = den = None
@@ -223,7 +242,7 @@ def r17b(ck, prog):
     if num is None or den is None:
         ck.violation("R17b", "R17b/kalign_msa_compare/shape", where, "the score is %s, not constant * numerator / denominator" % rhs.text(), prog.config)
         return
-    nsrc, dsrc = reaching_sources(K, num), reaching_sources(K, den)
+    nsrc, dsrc = reaching_sources(SF, num), reaching_sources(SF, den)
     import re
     allf = set(cls)
     nf = set(re.findall(r"(?:->|\.)\s*(\w+)", " ".join(nsrc))) & allf
@@ -374,23 +393,20 @@ def r17f(ck, prog):
     """the score is computed in double precision from the integer counters: the value stored through the score pointer and
     every local it is computed from have type double and no float-typed operand (100.0f * a rounds to 24 bits before the
     division: identical alignments then score 100.000008 or 99.9999924)"""
-    K = prog.fn("kalign_msa_compare")
-    outs = [a for a in K.body.find("BinaryOperator") if a.d["op"] == "=" and a.kids[0].strip().k == "UnaryOperator" and a.kids[0].strip().d["op"] == "*"
-            and a.kids[0].strip().kids[0].strip(casts=True).k == "DeclRefExpr" and a.kids[0].strip().kids[0].strip(casts=True).d.get("dk") == "Parm"
-            and a.kids[0].strip().ty in ("float", "double")]
+    outs = _score_sites(prog)
     if not outs:
         raise AnalysisBroken("R17f slot: the store through the score pointer was not found in kalign_msa_compare")
     n = 0
-    for a in outs:
-        exprs = [a.kids[1]]
-        for r in a.kids[1].find("DeclRefExpr"):
+    for K, sexpr, a in outs:
+        exprs = [sexpr]
+        for r in sexpr.find("DeclRefExpr"):
             if r.d.get("dk") == "Var" and not r.d.get("g"):
                 exprs += [d for d, _ in local_defs(K, r.d["did"]) if d is not None]
                 exprs.append(r)
         narrow = [x for e in exprs for x in e.walk() if x.ty in ("float", "const float") and x.k not in ("ImplicitCastExpr",)]
         n += 1
         where = site(prog, a, "score")
-        ck.inst("R17f", where, "*score = %s: %d sub-expression(s), %d of type float" % (a.kids[1].text()[:40], sum(1 for e in exprs for _ in e.walk()), len(narrow)), prog.config)
+        ck.inst("R17f", where, "*score = %s: %d sub-expression(s), %d of type float" % (sexpr.text()[:40], sum(1 for e in exprs for _ in e.walk()), len(narrow)), prog.config)
         if narrow:
             ck.violation("R17f", "R17f/kalign_msa_compare/float", site(prog, narrow[0], "float"),
                          "the score is computed with single-precision operands (%s): the counters exceed 2^24 on ordinary alignments, "
@@ -419,18 +435,16 @@ def r17h(ck, prog):
     if not fb or any(v is None for v in fb.values()):
         raise AnalysisBroken("R17h: the counter fields of struct cmp_stats are not plain integer types (%s)" % fb)
     wmin = min(fb.values())
-    outs = [a for a in K.body.find("BinaryOperator") if a.d["op"] == "=" and a.kids[0].strip().k == "UnaryOperator" and a.kids[0].strip().d["op"] == "*"
-            and a.kids[0].strip().kids[0].strip(casts=True).k == "DeclRefExpr" and a.kids[0].strip().kids[0].strip(casts=True).d.get("dk") == "Parm"
-            and a.kids[0].strip().ty in ("float", "double")]
+    outs = _score_sites(prog)
     if not outs:
         raise AnalysisBroken("R17h slot: the store through the score pointer was not found in kalign_msa_compare")
 
     def has_counter(e):
         return any(m.k == "MemberExpr" and m.d.get("rec") == "cmp_stats" for m in e.walk())
     n = 0
-    for a in outs:
+    for K, sexpr, a in outs:
         seen = set()
-        work = [a.kids[1]]
+        work = [sexpr]
         bad = []
         while work:
             e = work.pop()
